@@ -83,6 +83,10 @@ def run(ctx):
             return run_inputs(ctx, proved, model, implrun, [("replay", bytes.fromhex(rp["source_hex"]))], None, replaying=True)
     inputs += corpus_inputs()
     inputs += LI.handcrafted()
+    inputs += LI.boundary_sweep(rng, thorough)      # multi-byte characters at every offset around the 4096-byte refills
+    inputs += LI.dense_multibyte(thorough)          # multi-byte bodies in every phase across several refills
+    inputs += LI.special_sequences()                # BOMs, controls, overlong / surrogate / invalid sequences as prefix / infix / suffix
+    inputs += LI.long_runs(thorough)                # tokens and runs beyond the window, thousands of line feeds
     files = vclgen.repo_vcl_files(V.REPO)
     inputs += [("file:" + p, d) for p, d in files]
     docs = LI.docs_blocks(V.REPO)
@@ -105,7 +109,7 @@ def run(ctx):
         gens.append(("gen", s))
     inputs += gens
     bases = [d for _, d in files if 0 < len(d) < 4000] + [d for _, d in gens]
-    n_mut = 60000 if thorough else 3500
+    n_mut = 60000 if thorough else 2200
     for i in range(n_mut):
         b = rng.choice(bases)
         if rng.random() < 0.5:
@@ -116,7 +120,7 @@ def run(ctx):
             m = m[: rng.randrange(len(m) + 1)]
             kind += "+trunc"
         inputs.append((kind, m))
-    inputs += LI.soup(rng, 20000 if thorough else 1500)
+    inputs += LI.soup(rng, 20000 if thorough else 1000)
     return run_inputs(ctx, proved, model, implrun, inputs, g)
 
 
@@ -129,16 +133,22 @@ def run_inputs(ctx, proved, model, implrun, inputs, g, replaying=False):
 
     # ------------------------------------------------------------------ runs
     big = 9_000_000
-    i_lex = V.run_batch([implrun, "lex"], hexes, hang_s=2, max_failures=3)
-    i_pump = V.run_batch([implrun, "pump"], hexes, hang_s=2, max_failures=3)
-    m_lex = V.run_batch([model], ["lex " + h for h in hexes], hang_s=60, mem_kb=big)
-    m_pump = V.run_batch([model], ["pump " + h for h in hexes], hang_s=60, mem_kb=big)
-    i_parse = {m: V.run_batch([implrun, "parse"], [m + " " + h for h in hexes], hang_s=2, max_failures=3) for m in MODES}
-    # the composed model bytes -> lexer -> pump -> parser model (Model/LexParse.v); strconv.ParseFloat verdicts from Go
-    i_floats = V.run_batch([implrun, "floats"], hexes, hang_s=4, max_failures=3)
-    m_parse = V.run_batch([os.path.join(V.BUILD, "modelrun_lexparse")],
-                          [((f if f and not first_fail(f) else "-") + " " + h) for f, h in zip(i_floats, hexes)],
-                          hang_s=120, mem_kb=big)
+    # the batches are independent processes: run them side by side (each run_batch supervises its own process)
+    from concurrent.futures import ThreadPoolExecutor
+    with ThreadPoolExecutor(max_workers=8) as ex:
+        f_lex = ex.submit(V.run_batch, [implrun, "lex"], hexes, hang_s=2, max_failures=3)
+        f_pump = ex.submit(V.run_batch, [implrun, "pump"], hexes, hang_s=2, max_failures=3)
+        f_mlex = ex.submit(V.run_batch, [model], ["lex " + h for h in hexes], hang_s=60, mem_kb=big)
+        f_mpump = ex.submit(V.run_batch, [model], ["pump " + h for h in hexes], hang_s=60, mem_kb=big)
+        f_parse = {m: ex.submit(V.run_batch, [implrun, "parse"], [m + " " + h for h in hexes], hang_s=2, max_failures=3)
+                   for m in MODES}
+        # the composed model bytes -> lexer -> pump -> parser model (Model/LexParse.v); strconv.ParseFloat verdicts from Go
+        i_floats = V.run_batch([implrun, "floats"], hexes, hang_s=4, max_failures=3)
+        m_parse = V.run_batch([os.path.join(V.BUILD, "modelrun_lexparse")],
+                              [((f if f and not first_fail(f) else "-") + " " + h) for f, h in zip(i_floats, hexes)],
+                              hang_s=120, mem_kb=big)
+        i_lex, i_pump, m_lex, m_pump = f_lex.result(), f_pump.result(), f_mlex.result(), f_mpump.result()
+        i_parse = {m: f_parse[m].result() for m in MODES}
 
     def replay(lab, d, **kw):
         r = {"label": lab, "source_hex": d.hex(), "source": d[:300].decode("utf-8", "replace")}
@@ -249,8 +259,10 @@ def run_inputs(ctx, proved, model, implrun, inputs, g, replaying=False):
     })
     return ctx.finish(
         level="proof",
-        rule="theorems of coq/Props/C01.v over Model/Lex.v + Model/Pump.v (every byte string / every token stream); "
-             "correspondence and oracle on: corpus, handcrafted malformed stream, every repository .vcl file, documentation blocks, "
+        rule="theorems of coq/Props/C01.v over Model/Lex.v + Model/Pump.v + Model/LexParse.v (every byte string / every token stream); "
+             "correspondence and oracle on: corpus, handcrafted malformed stream, buffer-boundary sweep (2/3/4-byte and cut characters at every offset around "
+             "the 4096-byte refills in 8 token kinds), dense multi-byte bodies in every phase, special byte sequences (BOMs, controls, overlong, surrogates, "
+             "invalid) as prefix/infix/suffix of programs and tokens, runs and tokens beyond the window, every repository .vcl file, documentation blocks, "
              "keywords, byte prefixes of small files, token-boundary prefixes of large ones, grammar-generated programs, "
              "seeded byte/token mutations (+truncation), lexeme soup; each input through lex, pump (model vs implementation) and the "
              "three parser entry points (watchdog + located *ParseError); distinct = distinct byte string")
